@@ -5,6 +5,7 @@ import enum
 import ipaddress
 
 import attr
+import urllib3
 
 
 def _values_for(value, rng, pool):
@@ -55,6 +56,21 @@ def _values_for(value, rng, pool):
                 masked = base >> (top - plen) << (top - plen) if plen else 0
                 nets.append(('prefix%d' % plen, type(value)((masked, plen))))
         return [(l, n) for l, n in nets if n != value]
+    if isinstance(value, urllib3.util.url.Url):
+        # every part a URL can have, for the scheme at hand and for the other kind (mailto is composed by its own rule)
+        from cryptodatahub.common.types import convert_url
+        conv = convert_url()
+        texts = ['mailto:reports@example.com?subject=a%20b#weekly', 'mailto:a@example.com#frag', 'mailto:a@example.com!10m',
+                 'https://user@example.com:8443/path/x?query=1&b=2#fragment', 'https://example.com', 'http://[2001:db8::1]:80/']
+        out = []
+        for t in texts:
+            try:
+                u = conv(t)
+            except Exception:  # pylint: disable=broad-except
+                continue
+            if isinstance(u, urllib3.util.url.Url) and u != value:
+                out.append(('url:' + t[:24], u))
+        return out
     if isinstance(value, datetime.timedelta):
         return [('zero', datetime.timedelta(0)), ('1s', datetime.timedelta(seconds=1)), ('400d', datetime.timedelta(days=400))]
     if isinstance(value, ArrayBase):
